@@ -30,6 +30,8 @@ func mIn(v plan.Value) (plan.Value, bool) {
 		return plan.Int(v.I), true
 	case "float":
 		return plan.Float(v.F), true
+	case "nan":
+		return plan.Value{T: "nan"}, true
 	case "string":
 		return plan.Str(v.S), true
 	case "bool":
@@ -130,7 +132,7 @@ func valueMatches(got, want plan.Value, inner *plan.Value) bool {
 	return got.Key() == want.Key()
 }
 
-var mTypeNames = map[string]string{"int64": "int", "float": "float", "string": "string", "bool": "bool", "rune": "char", "bytes": "bytes",
+var mTypeNames = map[string]string{"int64": "int", "float": "float", "nan": "float", "string": "string", "bool": "bool", "rune": "char", "bytes": "bytes",
 	"array": "array", "immarray": "immutable-array", "map": "map", "immmap": "immutable-map", "time": "time", "error": "error", "nil": "undefined"}
 
 func mFalsy(v plan.Value) bool {
@@ -141,6 +143,8 @@ func mFalsy(v plan.Value) bool {
 		return len(v.S) == 0
 	case "float":
 		return math.IsNaN(v.F)
+	case "nan":
+		return true
 	case "bool":
 		return !v.B
 	case "rune":
@@ -208,6 +212,9 @@ func accessorMismatch(acc map[string]string, v plan.Value) string {
 		exp["string"] = v.S
 		exp["bytes"] = fmt.Sprintf("%q", []byte(v.S))
 		zero("char", "array", "map", "error")
+	case "nan":
+		exp["float"] = "NaN"
+		zero("char", "bytes", "array", "map", "error")
 	case "float":
 		exp["int64"], exp["int"] = fmt.Sprint(int64(v.F)), fmt.Sprint(int(v.F))
 		exp["float"] = fmt.Sprint(v.F)
@@ -260,7 +267,7 @@ func accessorMismatch(acc map[string]string, v plan.Value) string {
 		if k == "float" {
 			gf, _ := strconv.ParseFloat(got, 64)
 			wf, _ := strconv.ParseFloat(exp[k], 64)
-			if gf != wf {
+			if gf != wf && !(math.IsNaN(gf) && math.IsNaN(wf)) {
 				return fmt.Sprintf("%s() = %s, the coercion table gives %s", k, got, exp[k])
 			}
 			continue
